@@ -1,3 +1,253 @@
-/-! Model for property C01 (core Lean only; no Mathlib). -/
+/-! Model for property C01: state diagrams of `pytreenet/ttno` as pure data, their denotation as a
+formal operator sum, and functional ports of
+
+* `TensorProduct.pad_with_identities` / `Hamiltonian.pad_with_identities`          ↔ `padLabel`
+* `SingleTermDiagram.from_single_term` (`_from_single_term_rec`)                    ↔ `singleAt`
+* `StateDiagram.sum_states`                                                         ↔ `sumSD`
+* `StateDiagram.get_state_diagram_compound` / `from_hamiltonian_base` (method BASE) ↔ `baseDiagram`
+* `VertexColl.index_vertices` + `obtain_tensor_shape` (bond = number of vertices)   ↔ `bondDims`
+
+Core Lean only.
+
+A state diagram lives on the reference tree: the Python dictionaries `hyperedge_colls[node_id]` and
+`vertex_colls[(parent, child)]` are decorations of the tree's nodes and edges (node identifiers are
+unique dictionary keys).  A vertex is identified by its position in the ordered collection of its edge
+(this is exactly the index `index_vertices` assigns and the only thing `from_state_diagram` reads); a
+hyperedge names one vertex per incident edge: `pv` toward the parent (absent at the root) and `kv`
+toward the children in reference order.  Python identifies vertices by object identity; concatenating
+two collections (`sum_states`) therefore shifts the positions of the second summand - `shiftHE`. -/
 namespace Ptn.C01
+
+/-- Reference tree: identifier, dimension of the operator space of the site (open dimension, 1 if the
+    node has no open leg), children in reference order. -/
+inductive RTree where
+  | node (id : Nat) (dim : Nat) (kids : List RTree)
+deriving Repr
+
+def RTree.id : RTree → Nat
+  | .node i _ _ => i
+
+def RTree.kids : RTree → List RTree
+  | .node _ _ ks => ks
+
+/-- One Hamiltonian term: rational prefactor, symbol (`"1"` = no symbol), operator labels per site. -/
+structure Term where
+  coef : Rat
+  sym : String
+  ops : List (Nat × String)
+deriving Repr
+
+/-- `pad_with_identities(symbolic=True)`: the label of site `i` (of dimension `dim`) in the padded term. -/
+def padLabel (ops : List (Nat × String)) (i dim : Nat) : String :=
+  match ops.lookup i with
+  | some l => l
+  | none => "I" ++ toString dim
+
+/-- A hyperedge: label, rational factor λ, symbolic factor γ, vertex toward the parent, vertices toward
+    the children (reference order). -/
+structure HE where
+  label : String
+  lam : Rat
+  gam : String
+  pv : Option Nat
+  kv : List Nat
+deriving Repr, DecidableEq
+
+/-- A state diagram on a tree: per node its identifier, the number of vertices on the edge to its
+    parent (the ordered vertex collection is `[0, …, nv-1]`; 0 at the root), the ordered list of its
+    hyperedges, and the diagrams of the children. -/
+inductive SD where
+  | node (id : Nat) (nv : Nat) (hes : List HE) (kids : List SD)
+deriving Repr
+
+def SD.id : SD → Nat
+  | .node i _ _ _ => i
+def SD.nv : SD → Nat
+  | .node _ n _ _ => n
+def SD.hes : SD → List HE
+  | .node _ _ h _ => h
+def SD.kids : SD → List SD
+  | .node _ _ _ ks => ks
+
+/-! ### Formal operator sums -/
+
+/-- One summand: rational coefficient × product of symbols × label assignment (site ↦ label). -/
+structure Mono where
+  coef : Rat
+  syms : List String
+  asg : List (Nat × String)
+deriving Repr, DecidableEq
+
+/-- A formal sum, as the list of its summands.  The finitely supported map
+    (assignment, monomial) ↦ coefficient it stands for is `coeffOf`. -/
+abbrev FSum := List Mono
+
+/-- Sorted insertion of a symbol into a monomial (`"1"` is the empty product). -/
+def insSym (s : String) : List String → List String
+  | [] => [s]
+  | t :: ts => if s ≤ t then s :: t :: ts else t :: insSym s ts
+
+def symMono (g : String) : List String := if g = "1" then [] else [g]
+
+def mulSyms (a b : List String) : List String := a.foldr insSym b
+
+def Mono.one : Mono := ⟨1, [], []⟩
+
+def Mono.mul (x y : Mono) : Mono := ⟨x.coef * y.coef, mulSyms x.syms y.syms, x.asg ++ y.asg⟩
+
+def FSum.mul (a b : FSum) : FSum := a.flatMap fun x => b.map fun y => x.mul y
+
+/-- The summand contributed by hyperedge `h` of node `i`, times a summand of the subtrees below. -/
+def attach (i : Nat) (h : HE) (m : Mono) : Mono :=
+  ⟨h.lam * m.coef, mulSyms (symMono h.gam) m.syms, (i, h.label) :: m.asg⟩
+
+/-- Coefficient of (assignment `a`, monomial `m`) in a formal sum: the finitely supported map. -/
+def coeffOf (fs : FSum) (a : List (Nat × String)) (m : List String) : Rat :=
+  (fs.filter fun x => x.asg = a ∧ x.syms = m).foldr (fun x acc => x.coef + acc) 0
+
+/-! ### Denotation -/
+
+mutual
+/-- Sum over all choices of one hyperedge per node of the subtree that agree on every vertex, given
+    the vertex `pv` chosen on the edge to the parent (`none` at the root): product of the λ's and γ's
+    times the label assignment.  (Distributivity turns the sum over global choices into this
+    node-by-node form: the choices below different children are independent once the hyperedge of
+    the node is fixed.) -/
+def denoteAt : SD → Option Nat → FSum
+  | .node i _ hes kids, pv =>
+    hes.flatMap fun h => if h.pv = pv then (denoteKids kids h.kv).map (attach i h) else []
+/-- Product over the children; a hyperedge that does not name exactly one vertex per child edge is
+    malformed and contributes nothing. -/
+def denoteKids : List SD → List Nat → FSum
+  | [], [] => [Mono.one]
+  | k :: ks, v :: vs => FSum.mul (denoteAt k (some v)) (denoteKids ks vs)
+  | [], _ :: _ => []
+  | _ :: _, [] => []
+end
+
+/-- The formal operator denoted by a state diagram. -/
+def sdDenote (d : SD) : FSum := denoteAt d none
+
+/-! ### `SingleTermDiagram.from_single_term` -/
+
+mutual
+/-- `_from_single_term_rec`: one hyperedge per node, labelled by the (padded) term, one vertex per
+    edge; the coefficient pair sits on the root hyperedge only, every other hyperedge carries the
+    default `(Fraction(1), "1")`. -/
+def singleAt (ops : List (Nat × String)) (coef : Rat) (sym : String) (isRoot : Bool) : RTree → SD
+  | .node i dim kids =>
+    .node i (if isRoot then 0 else 1)
+      [{ label := padLabel ops i dim,
+         lam := if isRoot then coef else 1,
+         gam := if isRoot then sym else "1",
+         pv := if isRoot then none else some 0,
+         kv := kids.map fun _ => 0 }]
+      (singleKids ops coef sym kids)
+def singleKids (ops : List (Nat × String)) (coef : Rat) (sym : String) : List RTree → List SD
+  | [] => []
+  | k :: ks => singleAt ops coef sym false k :: singleKids ops coef sym ks
+end
+
+def singleTerm (t : RTree) (tm : Term) : SD := singleAt tm.ops tm.coef tm.sym true t
+
+/-! ### `StateDiagram.sum_states` -/
+
+/-- Positions of the second summand's vertices after concatenating the collections. -/
+def shiftHE (np : Nat) (nk : List Nat) (h : HE) : HE :=
+  { h with pv := h.pv.map (· + np), kv := List.zipWith (· + ·) h.kv nk }
+
+mutual
+/-- `sum_states`: per node the hyperedge lists are concatenated, per edge the vertex lists. -/
+def sumSD : SD → SD → SD
+  | .node i n1 h1 k1, .node _ n2 h2 k2 =>
+    .node i (n1 + n2) (h1 ++ h2.map (shiftHE n1 (k1.map SD.nv))) (sumKids k1 k2)
+def sumKids : List SD → List SD → List SD
+  | a :: as, b :: bs => sumSD a b :: sumKids as bs
+  | as, [] => as
+  | [], bs => bs
+end
+
+/-- `get_state_diagram_compound` after `get_state_diagrams`: left fold of `sum_states` over the
+    single-term diagrams; `none` for an empty Hamiltonian (Python returns `None`). -/
+def baseDiagram (t : RTree) : List Term → Option SD
+  | [] => none
+  | tm :: rest => some (rest.foldl (fun acc x => sumSD acc (singleTerm t x)) (singleTerm t tm))
+
+/-! ### What the Hamiltonian itself denotes -/
+
+mutual
+/-- The padded label assignment of a term, in the preorder of the tree. -/
+def asgOf (ops : List (Nat × String)) : RTree → List (Nat × String)
+  | .node i dim kids => (i, padLabel ops i dim) :: asgKids ops kids
+def asgKids (ops : List (Nat × String)) : List RTree → List (Nat × String)
+  | [] => []
+  | k :: ks => asgOf ops k ++ asgKids ops ks
+end
+
+def termMono (t : RTree) (tm : Term) : Mono := ⟨tm.coef, symMono tm.sym, asgOf tm.ops t⟩
+
+/-- Σ_k c_k ⊗_sites A_k as a formal sum. -/
+def hamDenote (t : RTree) (terms : List Term) : FSum := terms.map (termMono t)
+
+/-! ### Bond dimensions (`index_vertices`, `obtain_tensor_shape`) -/
+
+mutual
+/-- (child identifier, number of vertices on the edge parent–child) for every edge below `d`. -/
+def bondsBelow : SD → List (Nat × Nat)
+  | .node _ _ _ kids => bondsKids kids
+def bondsKids : List SD → List (Nat × Nat)
+  | [] => []
+  | k :: ks => (k.id, k.nv) :: (bondsBelow k ++ bondsKids ks)
+end
+
+/-- Bond dimension of every edge of the TTNO filled from the diagram, keyed by the child. -/
+def bondDims (d : SD) : List (Nat × Nat) := bondsBelow d
+
+mutual
+def RTree.edgesBelow : RTree → List Nat
+  | .node _ _ kids => RTree.edgesKids kids
+def RTree.edgesKids : List RTree → List Nat
+  | [] => []
+  | k :: ks => k.id :: (RTree.edgesBelow k ++ RTree.edgesKids ks)
+end
+
+mutual
+def RTree.ids : RTree → List Nat
+  | .node i _ kids => i :: RTree.idsKids kids
+def RTree.idsKids : List RTree → List Nat
+  | [] => []
+  | k :: ks => RTree.ids k ++ RTree.idsKids ks
+end
+
+/-! ### Well-formedness (what `from_state_diagram` relies on) -/
+
+/-- `vs` names one existing vertex per child edge. -/
+def kvOk : List Nat → List SD → Prop
+  | [], [] => True
+  | v :: vs, k :: ks => v < k.nv ∧ kvOk vs ks
+  | [], _ :: _ => False
+  | _ :: _, [] => False
+
+mutual
+/-- Every hyperedge names one vertex per incident edge and every such vertex exists in the edge's
+    collection (position below the number of vertices).  At the root `nv = 0`, so `pv = none`. -/
+def SD.WF : SD → Prop
+  | .node _ nv hes kids =>
+    (∀ h ∈ hes, (∀ p, h.pv = some p → p < nv) ∧ kvOk h.kv kids) ∧ WFKids kids
+def WFKids : List SD → Prop
+  | [] => True
+  | k :: ks => k.WF ∧ WFKids ks
+end
+
+mutual
+/-- Two diagrams live on the same tree (same identifiers, same branching). -/
+def SameShape : SD → SD → Prop
+  | .node i _ _ k1, .node j _ _ k2 => i = j ∧ SameShapeKids k1 k2
+def SameShapeKids : List SD → List SD → Prop
+  | [], [] => True
+  | a :: as, b :: bs => SameShape a b ∧ SameShapeKids as bs
+  | [], _ :: _ => False
+  | _ :: _, [] => False
+end
+
 end Ptn.C01
